@@ -21,6 +21,7 @@ import EV.Proofs.SighashCommitsLS
 import EV.Proofs.SighashCommitsT
 import EV.Proofs.SighashErrors
 import EV.Proofs.SighashViewAgree
+import EV.Proofs.MemTx
 namespace EV.Props.C03
 open EV EV.Codec EV.Sighash EV.Proofs.CodecTx
 
@@ -378,6 +379,19 @@ theorem taproot_index_unchecked_without_anyonecanpay (tx : Tx) (idx : Nat) (ps :
     (hacp : ty.acp = false) (hs : ty.isSingle = false) (hlen : ps.length = tx.input.length) :
     ∃ m, msgTaproot H tx idx (.all ps) annex leaf ty g = .ok m :=
   taproot_index_unchecked H tx idx ps annex leaf ty g hacp hs hlen
+
+/-! ### tie machinery: the in-memory transport of the correspondence run is faithful
+
+  The digests are functions of in-memory `Transaction` values, some of which the consensus encoding cannot carry
+  (an all-ones outpoint index together with a pegin flag or an issuance: the taproot outpoint flag is computed from
+  the FIELDS). For those the harness sends the transaction field by field (`m:` argument); this theorem is why the
+  model then evaluates the query on exactly the value the real code holds. -/
+
+/-- decoding what the transport wrote returns the transaction, under field-size conditions only (no relation
+    between index and flags is required) -/
+theorem transport_faithful (P : Prims) (t : Tx) (r : Bytes) (h : EV.Proofs.MemTx.wfTx P t) :
+    EV.Driver.MemTx.dec P (EV.Driver.MemTx.enc t ++ r) = .ok (t, r) :=
+  EV.Proofs.MemTx.dec_complete P t r h
 
 /-! ### non-vacuity -/
 
